@@ -40,6 +40,11 @@ type Case struct {
 	Arm string `json:"arm,omitempty"`
 	// fam "text": a verbatim program (harness-generated mutations of real programs)
 	Text string `json:"text,omitempty"`
+	// fam "hist": steps of a history; fam "thr": entry point and thrown value; fam "copy": runtime state
+	Ops   []string `json:"ops,omitempty"`
+	Entry string   `json:"entry,omitempty"`
+	Val   string   `json:"val,omitempty"`
+	Setup string   `json:"setup,omitempty"`
 	// Patient: reproduction run with a long watchdog (tells slow from wedged on a loaded machine)
 	Patient bool `json:"patient,omitempty"`
 }
@@ -358,6 +363,20 @@ func Render(c *Case) string {
 		return fmt.Sprintf("[acc] %s on %s", c.Acc, k)
 	case "irq":
 		return fmt.Sprintf("[irq] arm=%s", c.Arm)
+	case "hist":
+		var steps []string
+		for _, op := range c.Ops {
+			if js, ok := histJS[op]; ok {
+				steps = append(steps, js)
+			} else {
+				steps = append(steps, "<Go: "+op+" on a>")
+			}
+		}
+		return "[hist] var a = [1,2,3,4]; " + strings.Join(steps, "; ")
+	case "thr":
+		return fmt.Sprintf("[throw via %s] throw %s", c.Entry, valExpr(c.Val))
+	case "copy":
+		return fmt.Sprintf("[copy] %s ; vm.Copy() ; copy.Run(\"1+1\")", copySetups[c.Setup])
 	case "text":
 		return fmt.Sprintf("[%s] %q", c.API, trunc(c.Text, 300))
 	}
@@ -389,6 +408,8 @@ func fnScript(c *Case) (string, error) {
 		return fmt.Sprintf("(0, %s)(%s)", c.Fn, a), nil
 	case "new":
 		return fmt.Sprintf("new (%s)(%s)", c.Fn, a), nil
+	case "newbind":
+		return fmt.Sprintf("new ((%s).bind(%s))()", c.Fn, ra), nil
 	case "method":
 		return fmt.Sprintf("var C02_r = %s; C02_r.c02m = %s; C02_r.c02m(%s)", r, c.Fn, a), nil
 	}
@@ -431,7 +452,7 @@ func exec1(c *Case, onVM func(*otto.Otto)) Obs {
 	switch c.Fam {
 	case "fn":
 		switch c.Route {
-		case "call", "apply", "bind", "direct", "new", "method":
+		case "call", "apply", "bind", "direct", "new", "newbind", "method":
 			src, err := fnScript(c)
 			if err != nil {
 				return Obs{Kind: "harness", Msg: err.Error()}
@@ -571,6 +592,12 @@ func exec1(c *Case, onVM func(*otto.Otto)) Obs {
 		vm.SetStackDepthLimit(c.L)
 		obs = applyAcc(vm, c.Acc, v)
 		vm.SetStackDepthLimit(0)
+	case "hist":
+		obs = execHist(vm, c)
+	case "thr":
+		obs = execThrow(vm, c)
+	case "copy":
+		obs = execCopy(vm, c)
 	case "rec":
 		obs = execRec(vm, c)
 	case "irq":
